@@ -971,6 +971,10 @@ class ClassTally(_Tally):
         if len(self.samples) < 3:
             self.samples.append({'oracle': oracle, 'args': args})
         if bad:
+            from .tally import match_known
+            if match_known(oracle, args, bad) is not None:
+                self.record_failure(oracle, args, bad)     # open known finding: kept apart
+                return bad
             first = bad[0].split(': ', 1)[-1] if bad[0].startswith('(lon=') else bad[0]
             cls = (oracle, _re.sub(r'[-+]?\d[\d.e+-]*', '#', first)[:60])
             self.classes[cls] = self.classes.get(cls, 0) + 1
